@@ -54,20 +54,45 @@ func (i hInstant) monoTime(mono int64) time.Time {
 	return t
 }
 
+// Boolean connectives as calls on evaluated operands: the engine turns them into one formula instead of forking
+// (Go's short-circuit && / || inside larger expressions would fork once per symbolic operand).
+func hAnd(a, b bool) bool { return a && b }
+func hOr(a, b bool) bool  { return a || b }
+func hAll(a ...bool) bool {
+	r := true
+	for _, x := range a {
+		r = hAnd(r, x)
+	}
+	return r
+}
+func hAny(a ...bool) bool {
+	r := false
+	for _, x := range a {
+		r = hOr(r, x)
+	}
+	return r
+}
+
 // a + d seconds >= b
 func hGE(a hInstant, dsec int64, b hInstant) bool {
-	return a.sec+dsec > b.sec || (a.sec+dsec == b.sec && a.nsec >= b.nsec)
+	return hGEs(a.sec, a.nsec, dsec, b.sec, b.nsec)
+}
+
+func hGEs(asec, ansec, dsec, bsec, bnsec int64) bool {
+	s := asec + dsec
+	gt := s > bsec
+	eq := s == bsec
+	ns := ansec >= bnsec
+	return hOr(gt, hAnd(eq, ns))
 }
 
 // hInWindow is the reference of the property: from - skew <= t <= until + skew  (until optional).
 func hInWindow(t, from hInstant, until *hInstant, skewSec int64) bool {
-	if !hGE(t, skewSec, from) {
-		return false
+	r := hGE(t, skewSec, from)
+	if until != nil {
+		r = hAnd(r, hGE(*until, skewSec, t))
 	}
-	if until != nil && !hGE(*until, skewSec, t) {
-		return false
-	}
-	return true
+	return r
 }
 
 // hSymNow draws the validation instant, optionally as a time.Now()-style value carrying a monotonic reading.
